@@ -21,11 +21,14 @@
 package main
 
 import (
+	"bytes"
 	"context"
 	"encoding/json"
 	"fmt"
 	"io"
 	"os"
+	"os/exec"
+	"path/filepath"
 	"runtime/debug"
 	"sort"
 	"strings"
@@ -1240,7 +1243,7 @@ func sectionCallers(rng *vh.Rng) {
 func panicOrigin(stack string) string {
 	lines := strings.Split(stack, "\n")
 	for i, l := range lines {
-		if strings.HasPrefix(l, "panic(") {
+		if strings.HasPrefix(l, "panic(") || strings.HasPrefix(l, "runtime.sigpanic(") {
 			for j := i + 2; j < len(lines); j += 2 {
 				if !strings.HasPrefix(lines[j], "runtime.") {
 					return lines[j]
@@ -1285,9 +1288,45 @@ func recoverStack(f func()) (p string) {
 // ---------------------------------------------------------------------------------------------
 // stress (thorough): TRUNCATE racing queries and writes, free running
 
+// sectionStress runs the race in a child process: a fatal fault deep inside the journal library / time index (chunk
+// removed under a reader or writer — not this property) would otherwise take the whole harness down.
 func sectionStress(rng *vh.Rng) {
+	out := filepath.Join(os.TempDir(), fmt.Sprintf("c14-stress-%d-%d.json", os.Getpid(), args.Seed))
+	defer os.Remove(out)
+	cmd := exec.Command(os.Args[0], "-tier", args.Tier, "-seed", fmt.Sprint(args.Seed), "-driver", args.Driver, "-out", out, "-corpus", args.Corpus)
+	cmd.Env = append(os.Environ(), "C14_STRESS_CHILD=1")
+	var stderr bytes.Buffer
+	cmd.Stderr = &stderr
+	cmd.Stdout = &stderr
+	err := cmd.Run()
+	var child vh.Result
+	if vh.ReadJSON(out, &child) == nil && len(child.Sections) > 0 {
+		res.Sections = append(res.Sections, child.Sections...)
+		for _, f := range child.SpecFailures {
+			res.SpecFail(f)
+		}
+		for _, n := range child.Notes {
+			res.Note("%s", n)
+		}
+		return
+	}
+	sec := res.Section("stress", "stress", "free-running TRUNCATE vs queries and writes in a child process")
+	txt := stderr.String()
+	origin := panicOrigin(txt)
+	if strings.HasPrefix(origin, "github.com/logrange/logrange/pkg/tindex.") || strings.Contains(txt, "Could not release") || strings.Contains(txt, "Could not UnlockExclusively") {
+		if len(txt) > 3000 {
+			txt = txt[:3000]
+		}
+		res.SpecFail(vh.SpecFailure{Section: "stress", Kind: "panic", Input: map[string]interface{}{"seed": args.Seed}, Impl: txt, Spec: "no panic", What: "the server crashed in the tag index during the TRUNCATE/query/write race"})
+	} else {
+		res.Note("stress: the child process ended abnormally (%v) outside the tag index (origin %q) — a chunk-level fault in the journal library / time index, not judged here", err, origin)
+	}
+	res.Done(sec)
+}
+
+func stressChild(rng *vh.Rng) {
 	sec := res.Section("stress", "stress",
-		"free-running goroutines on the in-process server for 40 s: 4 writers (partition.Service.Write) over 4 tag lines, 3 readers (un-cached SELECTs through backend.Querier, GetJournals+Release, GetJournal+Release), all in-process so that a panic is recovered and classified, 1 truncator (Truncate deleting everything it can, incl. empty partitions created through the tag index); afterwards: no panic, every reader count 0, nothing exclusively locked, every remaining partition can be locked exclusively; one evaluation per Truncate pass (all operations are counted in the distribution)")
+		"free-running goroutines on the in-process server for 40 s, in a child process: 4 writers (RPC Write) over 4 tag lines, 3 readers (un-cached SELECTs over RPC, GetJournals+Release, GetJournal+Release by id), 1 truncator (creates an empty partition through the tag index, then Truncate cutting and deleting everything it can); afterwards: no panic, every reader count 0, nothing exclusively locked, every remaining partition can be locked exclusively. A fault that originates in the journal library / time index (a chunk removed under a reader or writer: chunk level, not this property) is recorded as a note and the run is not judged; a panic in the tag index is a failure. One evaluation per Truncate pass (operations and deleted partitions are in the distribution)")
 	dir := lrsrv.NewDir()
 	defer os.RemoveAll(dir)
 	srv, err := lrsrv.Start(dir, lrsrv.Opts{MaxChunkSize: 4096})
@@ -1305,7 +1344,7 @@ func sectionStress(rng *vh.Rng) {
 	defer cancel()
 	all, _ := lql.ParseSource("c14 like \"s*\"")
 	var wg sync.WaitGroup
-	var ops int64
+	var ops, nDeleted int64
 	var panics sync.Map
 	guard := func(name string, f func()) {
 		wg.Add(1)
@@ -1320,11 +1359,15 @@ func sectionStress(rng *vh.Rng) {
 			}
 		}()
 	}
+	// Chunk-level races (a chunk removed under a reader or writer) can crash inside the journal library and the time
+	// index; they are not this property. The section therefore runs in a child process (see sectionStress) and a crash
+	// that does not originate in the tag index is recorded as a note, not judged.
 	for w := 0; w < 4; w++ {
 		w := w
 		guard("writer", func() {
-			it := &sliceIt{evs: []model.LogEvent{{Timestamp: 1, Msg: []byte(strings.Repeat("x", 200))}, {Timestamp: 2, Msg: []byte("y")}}}
-			srv.Parts.Write(context.Background(), fmt.Sprintf("c14=s%d", w), it, false)
+			var wr api.WriteResult
+			evs := []*api.LogEvent{{Timestamp: 1, Message: strings.Repeat("x", 200)}, {Timestamp: 2, Message: "y"}}
+			srv.Client.Write(context.Background(), fmt.Sprintf("c14=s%d", w), "", evs, &wr)
 		})
 	}
 	for r := 0; r < 3; r++ {
@@ -1332,8 +1375,8 @@ func sectionStress(rng *vh.Rng) {
 		guard("reader", func() {
 			switch r {
 			case 0:
-				// (the backend the RPC handler calls; in-process so that a panic is recovered in this goroutine)
-				srv.Querier.Query(context.Background(), &api.QueryRequest{Query: "select from c14 like \"s*\" limit 20", Limit: 20})
+				var qr api.QueryResult
+				srv.Client.Query(context.Background(), &api.QueryRequest{Query: "select from c14 like \"s*\" limit 20", Limit: 20}, &qr)
 			case 1:
 				if m, err := srv.Parts.GetJournals(context.Background(), all, 50); err == nil {
 					for _, j := range m {
@@ -1355,7 +1398,11 @@ func sectionStress(rng *vh.Rng) {
 		if src, _, err := srv.TIndex.GetOrCreateJournal(fmt.Sprintf("c14=se%d", nTr%3)); err == nil {
 			srv.TIndex.Release(src)
 		}
-		srv.Parts.Truncate(context.Background(), partition.TruncateParams{TagsExpr: all, MaxSrcSize: 1, MaxDBSize: 1}, nil)
+		srv.Parts.Truncate(context.Background(), partition.TruncateParams{TagsExpr: all, MaxSrcSize: 1, MaxDBSize: 1}, func(ti partition.TruncateInfo) {
+			if ti.Deleted {
+				atomic.AddInt64(&nDeleted, 1)
+			}
+		})
 		time.Sleep(2 * time.Millisecond)
 	})
 	hung := !vh.WithTimeout(70*time.Second, wg.Wait)
@@ -1369,7 +1416,7 @@ func sectionStress(rng *vh.Rng) {
 			// a chunk removed under a reader inside the journal library (chunk level, C09's area) — not the partition
 			// lock protocol; the panic unwinds through Visit, so the counts of this run say nothing
 			tainted = true
-			res.Note("stress: %v goroutine panicked inside the journal library (chunk deleted under a reader or writer); counts of this run are not judged", k)
+			res.Note("stress: %v goroutine panicked inside the journal library; counts of this run are not judged: %.1800s", k, fmt.Sprint(v))
 			return true
 		}
 		panicked = true
@@ -1399,6 +1446,7 @@ func sectionStress(rng *vh.Rng) {
 		}
 	}
 	res.Dist(sec, fmt.Sprintf("operations=%d", ops))
+	res.Dist(sec, fmt.Sprintf("partitions-deleted=%d", nDeleted))
 	res.Done(sec)
 }
 
@@ -1457,6 +1505,11 @@ func main() {
 		return
 	}
 	rng := vh.NewRng(args.Seed)
+	if os.Getenv("C14_STRESS_CHILD") != "" {
+		stressChild(rng.Fork("stress"))
+		res.Write(args.Out)
+		return
+	}
 	if os.Getenv("C14_ONLY") == "" {
 		sectionRaw(rng.Fork("raw"))
 		sectionSchedules(rng.Fork("schedules"))
